@@ -142,6 +142,22 @@ def main(argv):
 
     if a.replay:
         rp = json.load(open(a.replay))
+        if rp.get('harness') == 'e2':
+            import e2
+            tool = e2.Tool(cdir)
+            r1 = tool.ask('A', rp['source_line'])
+            print('assembler:', r1[:3])
+            bad = False
+            if r1[0] == 'OK':
+                for l in [c for c in r1[1].split('\x1f') if c]:
+                    r2 = tool.ask('I', l)
+                    print('interpreter:', l, '->', r2[:2])
+                    bad = bad or r2[0] != 'OK'
+            tool.close()
+            if bad:
+                print('VIOLATION property=%s replay=%s' % (prop, a.replay))
+                return 1
+            return 0
         rr = P.replay_run(cdir, rp['harness'], rp['witness'], kf_off=True)
         print(json.dumps(rr, indent=1))
         if rr and (rr['fails'] or rr['panic']):
@@ -152,7 +168,7 @@ def main(argv):
     names = select_harnesses(all_h, prop, tier, cfg.get('extra_harnesses'))
     if a.only:
         names = [n for n in names if re.search(a.only, n)]
-    if not names:
+    if not names and not cfg.get('e2'):
         print('INCONCLUSIVE property=%s reason=no harnesses' % prop)
         return 2
     workers = int(os.environ.get('VERIF_JOBS', '12'))
@@ -272,12 +288,33 @@ def main(argv):
                     inconclusive.append('%s: native run of the harness fails where the solver proved it (%s)'
                                         % (n, rr['out'][-600:].replace('\n', ' | ')))
 
+    # ---- E2: grammar engine (C10 / C11 / C14)
+    e2res = None
+    if cfg.get('e2') and not a.only:
+        import e2
+        try:
+            e2res = e2.run(prop, tier, cdir, seed)
+        except Exception as ex:  # pragma: no cover
+            import traceback
+            inconclusive.append('E2 engine failed: %s' % traceback.format_exc()[-600:])
+        if e2res:
+            obligations += e2res['obligations']
+            discharged += e2res['discharged']
+            solver_time += e2res['solver_time']
+            validated += e2res['native_runs']
+            samples = (e2res['samples'][:4] + samples)[:8]
+            inconclusive += e2res['inconclusive']
+            notes += e2res['notes']
+            for v in e2res['violations']:
+                violations.append({'harness': 'e2', 'obligation': v['obligation'], 'witness': {}, 'native': v, 'release': None,
+                                   'backend': 'z3', 'source_line': v.get('source_line')})
+
     # known findings
-    kf_lines = []
+    kf_lines = list(e2res['known']) if e2res else []
     for k in P.load_kf():
         if k.get('property') != prop:
             continue
-        if k.get('status', 'open') != 'open':
+        if k.get('status', 'open') != 'open' or k.get('engine') == 'e2':
             continue
         rr = P.replay_run(cdir, k['harness'], dict(k['witness']), kf_off=True)
         still = bool(rr and (k['label'] in rr['fails'] or (k.get('panic') and rr['panic'])))
@@ -296,6 +333,7 @@ def main(argv):
     for v in violations:
         fn = os.path.join(rdir, '%s.%s.json' % (v['harness'], re.sub(r'[^A-Za-z0-9_.]', '_', v['obligation'])[:80]))
         json.dump({'property': prop, 'harness': v['harness'], 'obligation': v['obligation'], 'witness': v['witness'],
+                   'source_line': v.get('source_line'),
                    'native_dev': v['native'], 'native_release': v['release'], 'solver_backend': v['backend'],
                    'how': './check %s --replay %s' % (prop, fn)}, open(fn, 'w'), indent=1)
         vio_lines.append('VIOLATION property=%s replay=%s' % (prop, fn))
@@ -318,6 +356,7 @@ def main(argv):
             'bounds': cfg.get('bounds', 'loop-free: every value of every symbolic input'),
             'outside_claim': cfg.get('outside', ''),
             'harnesses': len(names), 'solver_time_s': round(solver_time, 1),
+            'e2': ({k: e2res[k] for k in ('shapes', 'downstream_shapes', 'queries', 'native_runs')} if e2res else None),
             'program_steps': stats_sum['program_steps'], 'vccs': stats_sum['vccs'],
             'vccs_after_simplification': stats_sum['vccs_remaining'],
             'per_harness': per_harness,
@@ -336,7 +375,7 @@ def main(argv):
           % (prop, tier, len(names), obligations, discharged, len(violations), len(inconclusive), solver_time, wall))
     for v in violations:
         print('  violated: %s [%s] witness=%s' % (v['obligation'], v['harness'],
-                                                  {k: x for k, x in v['witness'].items() if not k.startswith('w_r_') or x}))
+                                                  v.get('source_line') or {k: x for k, x in v['witness'].items() if not k.startswith('w_r_') or x}))
     for l in vio_lines:
         print(l)
     if vio_lines:
